@@ -129,8 +129,9 @@ func (r *recStore) Compact(start []byte, limit []byte) error {
 // ---------- persistent engines are reused across histories (opening pebble dominates) ----------
 
 type engine struct {
-	db  kvdb.Store
-	dir string
+	db   kvdb.Store
+	dir  string
+	dead bool // could not be reopened / closed cleanly: never reused
 }
 
 var (
@@ -165,27 +166,56 @@ func openEngine(kind string) *engine {
 	return &engine{db: db, dir: dir}
 }
 
-func (e *engine) reopen(kind string) error {
-	if err := e.db.Close(); err != nil {
-		return err
-	}
-	var err error
+func openAt(kind, dir string) (kvdb.Store, error) {
 	switch kind {
 	case "ldb":
-		e.db, err = leveldb.New(e.dir, 64*1024*1024, 0, nil, nil)
+		return leveldb.New(dir, 64*1024*1024, 0, nil, nil)
 	case "pbl":
-		e.db, err = pebble.New(e.dir, 64*1024*1024, 0, nil, nil)
+		return pebble.New(dir, 64*1024*1024, 0, nil, nil)
 	}
-	return err
+	return nil, fmt.Errorf("bad engine kind %s", kind)
+}
+
+func (e *engine) reopen(kind string) (err error) {
+	defer func() {
+		if r := recover(); r != nil {
+			e.dead = true
+			err = fmt.Errorf("%v", r)
+		}
+	}()
+	if err = e.db.Close(); err != nil {
+		e.dead = true
+		return err
+	}
+	db, err := openAt(kind, e.dir)
+	if err != nil {
+		e.dead = true
+		return err
+	}
+	e.db = db
+	return nil
 }
 
 func (e *engine) close() {
-	_ = e.db.Close()
+	func() {
+		defer func() { _ = recover() }()
+		if !e.dead {
+			_ = e.db.Close()
+		}
+	}()
 	os.RemoveAll(e.dir)
 }
 
 // wipe deletes every key; returns false if the store is not empty afterwards.
-func (e *engine) wipe() bool {
+func (e *engine) wipe() (ok bool) {
+	defer func() {
+		if r := recover(); r != nil {
+			ok = false
+		}
+	}()
+	if e.dead {
+		return false
+	}
 	it := e.db.NewIterator(nil, nil)
 	var keys [][]byte
 	for it.Next() {
@@ -535,9 +565,14 @@ func (s *Stack) Run(ops [][]string, stat func(string)) (obs []string) {
 			obs = append(obs, "H", hasB(b))
 			done("has")
 		case "it":
-			it := s.handle(o[1]).NewIterator(g.arg(o[2]), g.arg(o[3]))
-			kv, n, err := drain(it, -1)
-			it.Release()
+			var kv []string
+			var n int
+			var err error
+			func() {
+				it := s.handle(o[1]).NewIterator(g.arg(o[2]), g.arg(o[3]))
+				defer it.Release() // also when draining panics: a leaked iterator blocks engine Close
+				kv, n, err = drain(it, -1)
+			}()
 			fail("it", err)
 			obs = append(obs, "I", strconv.Itoa(n))
 			obs = append(obs, kv...)
@@ -620,9 +655,14 @@ func (s *Stack) Run(ops [][]string, stat func(string)) (obs []string) {
 				fail("shas", err)
 				obs = append(obs, "H", hasB(b))
 			case "sit":
-				it := sn.NewIterator(g.arg(o[2]), g.arg(o[3]))
-				kv, n, err := drain(it, -1)
-				it.Release()
+				var kv []string
+				var n int
+				var err error
+				func() {
+					it := sn.NewIterator(g.arg(o[2]), g.arg(o[3]))
+					defer it.Release()
+					kv, n, err = drain(it, -1)
+				}()
 				fail("sit", err)
 				obs = append(obs, "I", strconv.Itoa(n))
 				obs = append(obs, kv...)
